@@ -3,10 +3,11 @@
    Print Assumptions.  Model: Model/SuspendResume.v (any number of workers, any number of client threads with
    arbitrary programs of suspend/resume of processing units and of the whole pool and of task submissions
    with and without hints, any schedule, try_lock contention, spurious condition-variable wake-ups, with
-   and without elasticity / stealing); the runtime_state constants and the "refusal returns" facts are
+   and without elasticity / stealing; normal- and low-priority tasks, every queue split into its staged and its pending part, the
+   pool-wide low-priority queue served as in local_priority_queue_scheduler); the runtime_state constants and the "refusal returns" facts are
    regenerated from the source (Gen/GenRuntimeState.v). *)
 From Coq Require Import List NArith Bool Arith Permutation Lia.
-From Pika Require Import Base.Conc Gen.GenRuntimeState Model.SuspendResume Proofs.SuspendResumeProofs.
+From Pika Require Import Base.Conc Gen.GenRuntimeState Model.SuspendResume Proofs.SuspendResumeProofs Proofs.SuspendResumeValidated Proofs.SuspendResumeStutter.
 Import ListNotations.
 
 (* a task is executed at most once, whatever suspend/resume calls are interleaved with its life *)
@@ -16,10 +17,10 @@ Proof. exact no_dup_across_suspend. Qed.
 Print Assumptions C19_no_dup_across_suspend.
 
 (* no task is dropped: at every moment every submitted task has been executed, is held by a worker that
-   is about to execute it, or is still in a queue; and nothing is executed that was not submitted *)
+   is about to execute it, or is still in a queue (pending or staged); and nothing is executed that was not submitted *)
 Theorem C19_no_task_lost : forall c progs sched tk,
   let g := fst (sr_run c progs sched) in
-  (In tk (submitted g) -> In tk (map fst (executed g)) \/ In tk (map snd (heldl g)) \/ In tk (map snd (qs g))) /\
+  (In tk (submitted g) -> In tk (map fst (executed g)) \/ In tk (map snd (heldl g)) \/ In tk (map snd (qs g)) \/ In tk (map snd (sq g))) /\
   (In tk (map fst (executed g)) -> In tk (submitted g)).
 Proof. exact no_task_lost. Qed.
 Print Assumptions C19_no_task_lost.
@@ -27,17 +28,18 @@ Print Assumptions C19_no_task_lost.
 (* once the queues are drained every submitted task has been executed exactly once *)
 Theorem C19_all_done_when_drained : forall c progs sched,
   let g := fst (sr_run c progs sched) in
-  qs g = [] -> heldl g = [] -> Permutation (map fst (executed g)) (submitted g) /\ NoDup (map fst (executed g)).
+  qs g = [] -> sq g = [] -> heldl g = [] -> Permutation (map fst (executed g)) (submitted g) /\ NoDup (map fst (executed g)).
 Proof. exact all_done_when_drained. Qed.
 Print Assumptions C19_all_done_when_drained.
 
 (* enqueue versus suspend: a worker that has decided to sleep, or sleeps ([sleepy]: from the moment
-   can_exit = true was computed until it is running again), has in its queue only tasks that were
-   enqueued AFTER it last found the queue empty with running = false ([fresh] is reset exactly there):
-   it never goes to sleep over a task that was in its queue when it looked *)
+   can_exit = true was computed until it is running again), has in the queues get_queue_length(w) counts
+   ([qlen_tasks]: its own pending and staged queue, plus the low-priority queue for the last worker) only tasks
+   that were enqueued AFTER it last found them all empty with running = false ([fresh] is reset exactly there):
+   it never goes to sleep over a task that was in its queue when it looked.  Unguarded. *)
 Theorem C19_enqueue_vs_suspend : forall c progs sched w pc,
   let cf := sr_run c progs sched in
-  snd cf w = LWorker pc -> sleepy pc = true -> incl (qof w (qs (fst cf))) (fresh (fst cf) w).
+  snd cf w = LWorker pc -> sleepy pc = true -> forall x, In x (qlen_tasks c w (fst cf)) -> isfresh c w (fst cf) x.
 Proof. exact sr_sleep_check. Qed.
 Print Assumptions C19_enqueue_vs_suspend.
 
@@ -48,12 +50,12 @@ Print Assumptions C19_enqueue_vs_suspend.
    condition variable.  Unguarded: holds for the code after the fix of F10 (the generated
    g_spu_refusal_returns = [true; true]); with the fix reverted this proof fails. *)
 Theorem C19_unsupported_refused : forall c a k rest, refused c a = true -> callkind_of a = Some k ->
-  forall t o1 o2 g1 g2 e,
-    let cl0 := {| todo := expand c a ++ rest; ph := Ph0; err := e |} in
+  forall t o1 o2 g1 g2 e v,
+    let cl0 := {| todo := expand c a ++ rest; ph := Ph0; err := e; vl := v |} in
     let s1 := client_step c o1 t g1 cl0 in
     let s2 := client_step c o2 t g2 (snd s1) in
     fst s1 = g1 /\ same_core g2 (fst s2) /\ calls (fst s2) = (t, k, true) :: calls g2 /\
-    snd s2 = {| todo := rest; ph := Ph0; err := false |}.
+    snd s2 = {| todo := rest; ph := Ph0; err := false; vl := false |}.
 Proof. exact unsupported_refused. Qed.
 Print Assumptions C19_unsupported_refused.
 
@@ -76,42 +78,76 @@ Definition ex_sched (n : nat) : list (nat * oracle) :=
   flat_map (fun _ => [(2, (false, 0)); (0, (false, 1)); (1, (false, 0)); (3, (false, 0))]) (seq 0 n).
 
 Example C19_example_mid :
-  let g := fst (sr_run ex_cfg ex_progs (ex_sched 12)) in
+  let g := fst (sr_run ex_cfg ex_progs (ex_sched 14)) in
   executed g = [((2, 0), 1)] /\ st g 0 = rs_running /\ st g 1 = rs_sleeping /\
   calls g = [(3, KSuspendPool, true)].
 Proof. vm_compute. repeat split. Qed.
 
 Example C19_example_end :
-  let g := fst (sr_run ex_cfg ex_progs (ex_sched 40)) in
-  executed g = [((2, 2), 0); ((2, 1), 0); ((2, 0), 1)] /\ st g 0 = rs_running /\ st g 1 = rs_running /\ qs g = [] /\
+  let g := fst (sr_run ex_cfg ex_progs (ex_sched 50)) in
+  executed g = [((2, 2), 0); ((2, 1), 0); ((2, 0), 1)] /\ st g 0 = rs_running /\ st g 1 = rs_running /\ qs g = [] /\ sq g = [] /\
   calls g = [(2, KResumePU, false); (2, KSuspendPU, false); (3, KSuspendPool, true)].
 Proof. vm_compute. repeat split. Qed.
 
 (* ---- the calls return / nothing is stranded (deadlock freedom) ----
    [stuck]: no thread is enabled, where a thread spinning in yield_while / blocked on a lock or on the condition
-   variable / polling empty queues counts as not enabled (Model/SuspendResume.v, [enabled]).
-   [api_ok]: processing-unit numbers in the calls are worker numbers of the pool. *)
+   variable / polling queues it cannot serve counts as not enabled (Model/SuspendResume.v, [enabled]).
+   [api_ok]: processing-unit numbers in the calls are worker numbers of the pool.
+   UNGUARDED form: in a stuck state every client has finished, except (1) a pool-suspend waiting for get_thread_count() == 0
+   while work is live and (2) [lowprio_blocked]: a suspend of the LAST processing unit whose worker sits in pre_sleep
+   with empty own queues while the pool-wide low-priority queue is not empty -- the recorded finding
+   C19:suspend_pu_blocked_by_low_priority_tasks, exactly characterised. *)
 Theorem C19_suspend_resume_return : forall c progs sched, (forall t, Forall (api_ok c) (progs t)) ->
   let cf := sr_run c progs sched in
   stuck c cf ->
-  forall t, client_done (snd cf t) = true \/ (at_wait_idle (snd cf t) = true /\ live (fst cf) > 0).
+  forall t, client_done (snd cf t) = true \/ (at_wait_idle (snd cf t) = true /\ live (fst cf) > 0) \/
+            lowprio_blocked c (fst cf) (snd cf t).
 Proof. exact suspend_resume_return. Qed.
 Print Assumptions C19_suspend_resume_return.
 
-(* stuck and every processing unit running again (every suspend followed by a resume): no pending task remains and
-   every submitted task has been executed exactly once *)
+(* the previous statement under the weakest guard that excludes the finding: no low-priority task is queued in the stuck state *)
+Theorem C19_suspend_resume_return_guarded : forall c progs sched, (forall t, Forall (api_ok c) (progs t)) ->
+  let cf := sr_run c progs sched in
+  stuck c cf -> qof (lowq c) (qs (fst cf)) = [] -> qof (lowq c) (sq (fst cf)) = [] ->
+  forall t, client_done (snd cf t) = true \/ (at_wait_idle (snd cf t) = true /\ live (fst cf) > 0).
+Proof. exact suspend_resume_return_guarded. Qed.
+Print Assumptions C19_suspend_resume_return_guarded.
+
+(* the finding in the model: a reachable stuck state (2 workers, elasticity, stealing; two low-priority tasks staged, then
+   suspend_processing_unit(1)) in which the suspend call has not returned, worker 0 is running and stealing is enabled, and a
+   staged low-priority task has not been executed; the same scenario is run on the real runtime by the harness (case LOWP) *)
+Theorem C19_lowprio_suspend_stuck_refuted :
+  exists c progs sched, (forall t, Forall (api_ok c) (progs t)) /\
+    let cf := sr_run c progs sched in
+    stuck c cf /\
+    (exists t w, lastw c w = true /\ at_wait_sleep w (snd cf t) = true /\ client_done (snd cf t) = false /\
+                 st (fst cf) w = rs_pre_sleep /\ calls (fst cf) = []) /\
+    (exists w0, w0 < nw c /\ st (fst cf) w0 = rs_running /\ stealing c = true) /\
+    (exists tk, In (lowq c, tk) (sq (fst cf)) /\ In tk (submitted (fst cf)) /\ ~ In tk (map fst (executed (fst cf)))) /\
+    ~ (forall t, client_done (snd cf t) = true \/ (at_wait_idle (snd cf t) = true /\ live (fst cf) > 0)) /\
+    sq (fst cf) <> [].
+Proof. exact lowprio_suspend_stuck_refuted. Qed.
+Print Assumptions C19_lowprio_suspend_stuck_refuted.
+
+(* stuck and every processing unit running again (every suspend followed by a resume): no task remains in any queue
+   (normal or low-priority, staged or pending) and every submitted task has been executed exactly once.  Unguarded. *)
 Theorem C19_no_task_stranded : forall c progs sched, (forall t, Forall (api_ok c) (progs t)) ->
   let cf := sr_run c progs sched in
   nw c > 0 -> stuck c cf -> (forall w, w < nw c -> st (fst cf) w = rs_running) ->
-  qs (fst cf) = [] /\ heldl (fst cf) = [] /\ Permutation (map fst (executed (fst cf))) (submitted (fst cf)).
+  qs (fst cf) = [] /\ sq (fst cf) = [] /\ heldl (fst cf) = [] /\ Permutation (map fst (executed (fst cf))) (submitted (fst cf)).
 Proof. exact no_task_stranded. Qed.
 Print Assumptions C19_no_task_stranded.
 
-(* with stealing a single running worker suffices, also while the others sleep *)
+(* with stealing a single running worker w0 suffices, also while the others sleep, for everything except STAGED low-priority
+   tasks (only the last worker converts them): nothing pending, nothing held, the only staged tasks left are low-priority ones
+   and only if w0 is not the last worker; under the guard "no low-priority task is staged" everything has been executed *)
 Theorem C19_no_task_stranded_stealing : forall c progs sched w0, (forall t, Forall (api_ok c) (progs t)) ->
   let cf := sr_run c progs sched in
   stealing c = true -> stuck c cf -> w0 < nw c -> st (fst cf) w0 = rs_running ->
-  qs (fst cf) = [] /\ heldl (fst cf) = [] /\ Permutation (map fst (executed (fst cf))) (submitted (fst cf)).
+  qs (fst cf) = [] /\ heldl (fst cf) = [] /\
+  (forall i tk, In (i, tk) (sq (fst cf)) -> i = lowq c /\ lastw c w0 = false) /\
+  (qof (lowq c) (sq (fst cf)) = [] ->
+   sq (fst cf) = [] /\ Permutation (map fst (executed (fst cf))) (submitted (fst cf))).
 Proof. exact no_task_stranded_stealing. Qed.
 Print Assumptions C19_no_task_stranded_stealing.
 
@@ -125,5 +161,83 @@ Print Assumptions C19_handshake_invariant.
 
 (* non-vacuity of [stuck]: the end of the example run is stuck (everything returned, nothing left) *)
 Example C19_example_stuck :
-  forall t, t < 8 -> enabled ex_cfg t (fst (sr_run ex_cfg ex_progs (ex_sched 40))) (snd (sr_run ex_cfg ex_progs (ex_sched 40)) t) = false.
+  forall t, t < 8 -> enabled ex_cfg t (fst (sr_run ex_cfg ex_progs (ex_sched 50))) (snd (sr_run ex_cfg ex_progs (ex_sched 50)) t) = false.
 Proof. intros t H. do 8 (destruct t as [|t]; [vm_compute; reflexivity|]). lia. Qed.
+
+(* ---- strict enqueue_vs_suspend ----
+   [validated g]: the normal-priority tasks whose submitter took the PU lock of the selected worker in select_active_pu with the
+   initial max_allowed_state (so `state <= suspended` was tested UNDER that lock) and kept it across the enqueue, as
+   local_priority_queue_scheduler::create_thread does.  [no_pool_suspend]: the programs contain no accepted pool-wide suspend
+   (suspend_internal CASes running -> pre_sleep WITHOUT the PU lock, which breaks the exclusion; refused ones are allowed).
+   At every reachable state such a task is not in the pending or staged queue of a worker that has decided to sleep, sleeps or is
+   waking up ([sleepy]): together with C19_no_task_lost it has been executed, is held by a worker about to execute it, or sits in
+   the queue of a worker that is awake and polls that queue (own queue entries are popped / converted whatever `running` is). *)
+Theorem C19_enqueue_validated_runs_before_sleep : forall c progs sched,
+  (forall t, Forall (api_ok c) (progs t)) -> (forall t, Forall no_pool_suspend (progs t)) ->
+  let cf := sr_run c progs sched in
+  forall w pc, snd cf w = LWorker pc -> sleepy pc = true ->
+  forall tk, In tk (validated (fst cf)) -> ~ In (w, tk) (qs (fst cf)) /\ ~ In (w, tk) (sq (fst cf)).
+Proof. exact enqueue_validated_runs_before_sleep. Qed.
+Print Assumptions C19_enqueue_validated_runs_before_sleep.
+
+(* ... hence never stranded: in ANY quiescent state -- whichever processing units are suspended, no resume needed (compare
+   C19_no_task_stranded, which needs every processing unit running again) -- every validated task has been executed *)
+Theorem C19_validated_never_stranded : forall c progs sched, nw c > 0 ->
+  (forall t, Forall (api_ok c) (progs t)) -> (forall t, Forall no_pool_suspend (progs t)) ->
+  let cf := sr_run c progs sched in
+  stuck c cf -> forall tk, In tk (validated (fst cf)) -> In tk (map fst (executed (fst cf))).
+Proof. exact validated_never_stranded. Qed.
+Print Assumptions C19_validated_never_stranded.
+
+(* non-vacuity: in the example run all three submissions are validated (the one hinted to the sleeping worker 1 is diverted to
+   worker 0 under the initial max_allowed_state) and the hypotheses hold *)
+Example C19_example_validated :
+  validated (fst (sr_run ex_cfg ex_progs (ex_sched 50))) = [(2, 2); (2, 1); (2, 0)] /\
+  (forall t, Forall no_pool_suspend (ex_progs t)) /\ (forall t, Forall (api_ok ex_cfg) (ex_progs t)).
+Proof.
+  split; [vm_compute; reflexivity|]. split; intros t; do 4 (destruct t as [|t]; [cbn; repeat constructor|]); constructor.
+Qed.
+
+(* ... and [validated] is necessary: with the only worker suspended select_active_pu escalates max_allowed_state to `sleeping`,
+   the task lands on the sleeping worker (not validated) and the quiescent state has it still staged, until a resume *)
+Definition u_cfg := {| nw := 1; elastic := true; stealing := false |}.
+Definition u_progs (t : nat) : list api := match t with 1 => [ASuspendPU 0 false; ASubmit (Some 0)] | _ => [] end.
+Definition u_sched : list (nat * oracle) := flat_map (fun _ => [(1, (false, 0)); (0, (false, 0))]) (seq 0 40).
+Example C19_example_unvalidated :
+  let cf := sr_run u_cfg u_progs u_sched in
+  validated (fst cf) = [] /\ sq (fst cf) = [(0, (1, 0))] /\ st (fst cf) 0 = rs_sleeping /\ snd cf 0 = LWorker WWaiting /\
+  executed (fst cf) = [] /\ calls (fst cf) = [(1, KSuspendPU, false)] /\
+  (forall t, t < 3 -> enabled u_cfg t (fst cf) (snd cf t) = false).
+Proof.
+  cbv zeta. repeat split; try (vm_compute; reflexivity).
+  intros t H. do 3 (destruct t as [|t]; [vm_compute; reflexivity|]). lia.
+Qed.
+
+(* ---- the syntactic guard: no low-priority task is ever submitted ([no_lowprio]) ----
+   then the low-priority queue stays empty and the pre-finding statements hold as they were *)
+Theorem C19_suspend_resume_return_no_lowprio : forall c progs sched, nw c > 0 -> (forall t, Forall (api_ok c) (progs t)) ->
+  (forall t, Forall no_lowprio (progs t)) ->
+  let cf := sr_run c progs sched in
+  stuck c cf -> forall t, client_done (snd cf t) = true \/ (at_wait_idle (snd cf t) = true /\ live (fst cf) > 0).
+Proof. exact suspend_resume_return_nolow. Qed.
+Print Assumptions C19_suspend_resume_return_no_lowprio.
+
+Theorem C19_no_task_stranded_stealing_no_lowprio : forall c progs sched w0, (forall t, Forall (api_ok c) (progs t)) ->
+  (forall t, Forall no_lowprio (progs t)) ->
+  let cf := sr_run c progs sched in
+  stealing c = true -> stuck c cf -> w0 < nw c -> st (fst cf) w0 = rs_running ->
+  qs (fst cf) = [] /\ sq (fst cf) = [] /\ heldl (fst cf) = [] /\ Permutation (map fst (executed (fst cf))) (submitted (fst cf)).
+Proof. exact no_task_stranded_stealing_nolow. Qed.
+Print Assumptions C19_no_task_stranded_stealing_no_lowprio.
+
+Example C19_example_no_lowprio : forall t, Forall no_lowprio (ex_progs t).
+Proof. intros t. do 4 (destruct t as [|t]; [cbn; repeat constructor|]). constructor. Qed.
+
+(* ---- what [enabled] (hence [stuck]) means ----
+   a thread that is not enabled only stutters: without a spurious wake-up / lock contention in that step (fst o = false) its step
+   leaves the shared state unchanged ([geq]: equal, [waiting] up to extensionality) and it is still not enabled.  So in a stuck
+   state no schedule of such steps changes anything: "has not returned / has not run" there means "never will". *)
+Theorem C19_disabled_only_stutters : forall c o t g l, fst o = false -> enabled c t g l = false ->
+  geq g (fst (sr_tstep c o t g l)) /\ enabled c t (fst (sr_tstep c o t g l)) (snd (sr_tstep c o t g l)) = false.
+Proof. exact disabled_stutter. Qed.
+Print Assumptions C19_disabled_only_stutters.
